@@ -254,7 +254,17 @@ def r_trig_moment_at_zero(m):
         exp = mp.quad(lambda t: t ** p * mp.sin(t) ** s_ * mp.cos(t) ** c * 12 * t * (1 - t) ** 2, [0, 1])
         if abs(complex(got) - complex(exp)) > 1e-12:
             return dict(observed=f'Beta(2,3), powers {pw}: {got}', expected=str(exp), violates=True, input=pw)
-    return dict(observed='all agree with quadrature', expected='', violates=False)
+    from program.distribution import DiscreteUniform
+    for pw in ({'Sin': 2}, {'Sin': 1, 'Cos': 1}, {'Id': 1, 'Sin': 1}, {'Id': 2, 'Cos': 1}):
+        p, s_, c = pw.get('Id', 0), pw.get('Sin', 0), pw.get('Cos', 0)
+        exp = sum(mp.mpf(v) ** p * mp.sin(v) ** s_ * mp.cos(v) ** c for v in (-1, 0, 1, 2)) / 4
+        try:
+            got = sp.N(sp.sympify(str(FunctionalAssignment.get_trig_moment(DiscreteUniform(['-1', '2']), pw))), 30)
+        except Exception as ex:
+            return dict(observed=f'DiscreteUniform(-1,2), powers {pw}: {type(ex).__name__}: {ex}', expected=str(exp), violates=True, input=pw)
+        if abs(complex(got) - complex(exp)) > 1e-12:
+            return dict(observed=f'DiscreteUniform(-1,2), powers {pw}: {got}', expected=str(exp), violates=True, input=pw)
+    return dict(observed='all agree with quadrature / exact sums', expected='', violates=False)
 
 
 def r_exponent_lattice_rational(m):
